@@ -183,6 +183,32 @@ fn c09_init_320x240() { c09_case::<320, 240>() }
 #[kani::proof]
 fn c09_init_max() { c09_case::<65535, 65535>() }
 
+// ------------------------------------------------------------------------- builder call order (C09 / C11 / C17)
+/// the options `init` will see are the ones chosen, whatever the order of the builder calls: the six setters before or after
+/// `reset_pin`, each changing exactly the option it names (complete: all option values, both orders; loop-free)
+#[kani::proof]
+fn c11_builder_call_order() {
+    let clock = Clock::new();
+    let o = ModelOptions::with_all((kani::any(), kani::any()), (kani::any(), kani::any()));
+    let (co, or, inv, rf) = (any_color_order(), any_orientation(), any_inversion(), any_refresh());
+    let di: CtrlMock<0> = CtrlMock::new(&clock);
+    let b0 = Builder::new(ST7789, di);
+    kani::assert(b0.options.display_size == (240, 320) && b0.options.display_offset == (0, 0), "C09: a new builder starts from the full framebuffer");
+    let b = if kani::any() {
+        b0.reset_pin(MockPin::new(&clock)).color_order(co).orientation(or).invert_colors(inv).refresh_order(rf)
+            .display_size(o.display_size.0, o.display_size.1).display_offset(o.display_offset.0, o.display_offset.1)
+    } else {
+        b0.color_order(co).orientation(or).invert_colors(inv).refresh_order(rf)
+            .display_size(o.display_size.0, o.display_size.1).display_offset(o.display_offset.0, o.display_offset.1).reset_pin(MockPin::new(&clock))
+    };
+    let which: u8 = kani::any();
+    if which == 0 { kani::assert(b.options.color_order == co && b.options.orientation == or && b.options.invert_colors == inv && b.options.refresh_order == rf,
+                                 "C11: C10: C14: an option chosen on the builder was lost or changed by a later builder call"); }
+    if which == 1 { kani::assert(b.options.display_size == o.display_size && b.options.display_offset == o.display_offset,
+                                 "C09: C11: size / offset chosen on the builder was lost or changed by a later builder call"); }
+    if which == 2 { kani::assert(b.rst.is_some(), "C17: the reset pin given to the builder was dropped"); }
+}
+
 // ------------------------------------------------------------------------------------- C12 (init faults)
 /// fail the k-th low-level operation (pin write or bus command) of init, k symbolic: error names its source,
 /// nothing is issued after the failing operation, no panic.
